@@ -11,7 +11,7 @@ import (
 func init() {
 	register(&propInfo{
 		ID:          "C06",
-		Explanation: "Value-origin and path analysis of cancellation: (R06.1) the cancel notification a waiting call sends when its context is done uses the method name the peer dispatches to its cancel handler, carries that same call's request id, is sent only in the arm watching the call's own context, and is built per call; (R06.2) the subscription watcher is started with the subscription's context and the id of the response that announced the channel (the request id, not the channel id), waits for that context before sending, and sends its own id argument under the cancel method; (R06.3) the server's cancel handler invokes only the cancel function it looked up under the id decoded from this frame; (R06.4) closed world: every invocation of a context.CancelFunc in the library is one of {the per-call completion closure under !keep, the cancel handler's looked-up entry, the failer's sweep, the loop's deferred cancel}; in the dispatcher every non-deferred completion call lies on a path that returns without running the handler; (R06.5) the call spawner registers the cancel function, paired with the context given to the handler, under the call's id before the handler goroutine is started and in the executor's own (in-order) goroutine; (R06.6) HTTP: the server hands the request's context to the reader path, the client attaches the caller's context to the HTTP request, and the context placed in the handler's argument list derives from the dispatcher's context parameter; over WebSocket it derives from the per-connection context. (R06.10) what is decided from the method descriptor is read, and handed to the completion callback, after name and alias resolution.",
+		Explanation: "Value-origin and path analysis of cancellation: (R06.1) the cancel notification a waiting call sends when its context is done uses the method name the peer dispatches to its cancel handler, carries that same call's request id, is sent only in the arm watching the call's own context, and is built per call; (R06.2) the subscription watcher is started with the subscription's context and the id of the response that announced the channel (the request id, not the channel id), waits for that context before sending, and sends its own id argument under the cancel method; (R06.3) the server's cancel handler invokes only the cancel function it looked up under the id decoded from this frame; (R06.4) closed world: every invocation of a context.CancelFunc in the library is one of {the per-call completion closure under !keep, the cancel handler's looked-up entry, the failer's sweep, the loop's deferred cancel}; in the dispatcher every non-deferred completion call lies on a path that returns without running the handler; (R06.5) the call spawner registers the cancel function, paired with the context given to the handler, under the call's id before the handler goroutine is started and in the executor's own (in-order) goroutine; (R06.6) HTTP: the server hands the request's context to the reader path, the client attaches the caller's context to the HTTP request, and the context placed in the handler's argument list derives from the dispatcher's context parameter; over WebSocket it derives from the per-connection context. (R06.10) what is decided from the method descriptor is read, and handed to the completion callback, after name and alias resolution. (R06.11) the keep-context flag is computed from the resolved method descriptor, not from a side table keyed by the wire name. (R06.12) the keep-context flag is computed from 'kind is Chan' and index tests only; (R06.13) once the waiting call's context is done every path through that arm hands a cancel to the loop.",
 		NotDecided:  "Instants and races of cancellation; that a handler observes its context; peer ping/idle-timer effects on handler contexts (keepalive is decided under C17).",
 		Assumptions: []string{"the cancel method name is the constant under which the frame switch reaches the cancel handler"},
 		Run:         runC06,
@@ -149,6 +149,7 @@ func runC06(c *Ctx) {
 	c.rule("R06.4", "closed world of CancelFunc invocations; no completion call precedes the handler on a path that runs it")
 	c.rule("R06.5", "cancel function registered under the call's id, paired with the handler's context, before the handler goroutine starts, on the executor goroutine")
 	c.rule("R06.6", "context derivation: HTTP server/client use the request's/caller's context; the handler's context argument derives from the dispatcher's context; per-connection context over WebSocket")
+	c.ruleOpt("R06.13", "once the waiting call's context is done the cancel notification is sent on every path (whatever kind of call it is), short of a marshalling failure")
 	cancelName, haveName := c.cancelMethodName()
 	if !haveName {
 		c.und("R06.1", "cancel method name", "-", "could not determine the method name that reaches the cancel handler")
@@ -214,6 +215,7 @@ func runC06(c *Ctx) {
 						return ok && call.Common().IsInvoke() && call.Common().Method.Name() == "Done" && isNamed(call.Common().Value.Type(), "context", "Context")
 					}) {
 						inArm = true
+						c.cancelSentOnEveryPath("R06.13", sel, bo)
 					}
 				}
 			}
@@ -606,6 +608,8 @@ func runC06(c *Ctx) {
 	c.descriptorReadAfterResolution("R06.10")
 	c.ruleOpt("R06.11", "whether a call keeps its context (it returns a channel) is decided from the resolved method descriptor, not from a side table keyed by the wire name (an aliased subscription would lose its context at once)")
 	c.keepFlagFromDescriptor("R06.11")
+	c.ruleOpt("R06.12", "the keep-context flag is exactly 'the method has a value result and it is a channel': no further condition (number of results, presence of an error result …) narrows it")
+	c.keepFlagNotNarrowed("R06.12")
 	c.rule("R06.9", "cancel messages are executed in arrival order with the calls they refer to (one in-order executor; never handled on the reader's goroutine)")
 	c.arrivalOrderRule("R06.9")
 
@@ -1139,4 +1143,70 @@ func (c *Ctx) isParamOrForwarded(v ssa.Value, prm *ssa.Parameter) bool {
 		}
 	}
 	return true
+}
+
+// cancelSentOnEveryPath: R06.13. sel is the select in which a waiting call watches its context, arm
+// the comparison "chosen index == that case". From the arm's entry every path back to the select (or
+// to a successful return) hands a request to the connection loop; only a return with an error (the
+// cancel could not be marshalled) may skip it. An exemption such as "channel calls are cancelled by
+// the subscription watcher" leaves a subscribing call that is still in flight without any cancel.
+func (c *Ctx) cancelSentOnEveryPath(rule string, sel *ssa.Select, arm *ssa.BinOp) {
+	r := c.R
+	var entry *ssa.BasicBlock
+	for _, ref := range *arm.Referrers() {
+		if iff, ok := ref.(*ssa.If); ok {
+			entry = iff.Block().Succs[0]
+		}
+	}
+	if entry == nil || r.TCreq == nil {
+		return
+	}
+	fn := sel.Parent()
+	construct := fmt.Sprintf("%s: cancel sent whenever the call's context is done", fname(fn))
+	if c.seenConstruct == nil {
+		c.seenConstruct = map[string]bool{}
+	}
+	if c.seenConstruct[rule+construct] {
+		return
+	}
+	c.seenConstruct[rule+construct] = true
+	sends := func(x ssa.Instruction) bool {
+		if x == ssa.Instruction(sel) {
+			return false
+		}
+		switch y := x.(type) {
+		case *ssa.Send:
+			return y.X.Type() == types.Type(r.TCreq)
+		case *ssa.Select:
+			for _, st := range y.States {
+				if st.Dir == types.SendOnly && st.Send.Type() == types.Type(r.TCreq) {
+					return true
+				}
+			}
+		case *ssa.Return:
+			if y.Parent() != fn {
+				return false
+			}
+			for _, rv := range y.Results {
+				if isErrorType(rv.Type()) {
+					if k, ok := rv.(*ssa.Const); !ok || !k.IsNil() {
+						return true
+					}
+				}
+			}
+		}
+		return false
+	}
+	back := func(x ssa.Instruction) bool {
+		if x == ssa.Instruction(sel) {
+			return true
+		}
+		ret, ok := x.(*ssa.Return)
+		return ok && ret.Parent() == fn
+	}
+	if bad := reachFromBlock(entry, back, sends); bad != nil {
+		c.bad(rule, construct, c.ipos(bad), "a path leaves the context-done arm without handing a cancel request to the connection loop (e.g. an exemption for channel-returning calls): a call of that kind whose context ends while it is in flight is never cancelled on the server")
+	} else {
+		c.ok(rule, construct, c.ipos(sel), "every path through the arm sends a request (or fails with an error)")
+	}
 }
